@@ -42,6 +42,7 @@ type Call struct {
 	Created     time.Time
 	DeliveredAt time.Time
 	FromInc     int
+	Seq         int // canonical number, assigned when the scheduler first sees the call (stable across runs, unlike ID)
 	done        chan error
 	handlerDone chan struct{}
 	answered    bool
@@ -59,14 +60,21 @@ func (c *Call) Term() uint64 {
 	}
 }
 
+func (c *Call) num() int {
+	if c.Seq != 0 {
+		return c.Seq
+	}
+	return c.ID
+}
+
 func (c *Call) String() string {
 	switch c.Kind {
 	case "AE":
-		return fmt.Sprintf("#%d AE %d->%d t%d prev=%d.%d n=%d lc=%d", c.ID, c.From, c.To, c.AE.Term, c.AE.PrevLogIndex, c.AE.PrevLogTerm, len(c.AE.Entries), c.AE.LeaderCommit)
+		return fmt.Sprintf("#%d AE %d->%d t%d prev=%d.%d n=%d lc=%d", c.num(), c.From, c.To, c.AE.Term, c.AE.PrevLogIndex, c.AE.PrevLogTerm, len(c.AE.Entries), c.AE.LeaderCommit)
 	case "RV":
-		return fmt.Sprintf("#%d RV %d->%d t%d last=%d.%d pv=%v", c.ID, c.From, c.To, c.RV.Term, c.RV.LastLogIndex, c.RV.LastLogTerm, c.RV.Prevote)
+		return fmt.Sprintf("#%d RV %d->%d t%d last=%d.%d pv=%v", c.num(), c.From, c.To, c.RV.Term, c.RV.LastLogIndex, c.RV.LastLogTerm, c.RV.Prevote)
 	default:
-		return fmt.Sprintf("#%d IS %d->%d t%d label=%d.%d off=%d n=%d done=%v", c.ID, c.From, c.To, c.IS.Term, c.IS.LastIncludedIndex, c.IS.LastIncludedTerm, c.IS.Offset, len(c.IS.Bytes), c.IS.Done)
+		return fmt.Sprintf("#%d IS %d->%d t%d label=%d.%d off=%d n=%d done=%v", c.num(), c.From, c.To, c.IS.Term, c.IS.LastIncludedIndex, c.IS.LastIncludedTerm, c.IS.Offset, len(c.IS.Bytes), c.IS.Done)
 	}
 }
 
@@ -76,6 +84,7 @@ type Net struct {
 	Pending []*Call
 	All     []*Call
 	nextID  int
+	nextSeq int
 }
 
 type SimTransport struct {
@@ -597,7 +606,52 @@ func (s *Sim) Take(match func(*Call) bool) []*Call {
 func (s *Sim) PendingCalls() []*Call {
 	s.Net.mu.Lock()
 	defer s.Net.mu.Unlock()
-	return append([]*Call{}, s.Net.Pending...)
+	cs := canonicalOrder(append([]*Call{}, s.Net.Pending...))
+	for _, c := range cs {
+		if c.Seq == 0 {
+			s.Net.nextSeq++
+			c.Seq = s.Net.nextSeq
+		}
+	}
+	return cs
+}
+
+// AllCalls returns every call ever made, in canonical order.
+func (s *Sim) AllCalls() []*Call {
+	s.Net.mu.Lock()
+	defer s.Net.mu.Unlock()
+	return canonicalOrder(append([]*Call{}, s.Net.All...))
+}
+
+// canonicalOrder makes the scheduler's choices independent of the order in which the sender
+// goroutines happened to reach the transport (Go map iteration over the members, goroutine
+// scheduling): by creation instant (virtual), sender, receiver, kind, content, arrival.
+func canonicalOrder(cs []*Call) []*Call {
+	key := func(c *Call) string {
+		x := *c
+		x.ID, x.Seq = 0, 0
+		return x.String()
+	}
+	sort.SliceStable(cs, func(i, j int) bool {
+		a, b := cs[i], cs[j]
+		if !a.Created.Equal(b.Created) {
+			return a.Created.Before(b.Created)
+		}
+		if a.From != b.From {
+			return a.From < b.From
+		}
+		if a.To != b.To {
+			return a.To < b.To
+		}
+		if a.Kind != b.Kind {
+			return a.Kind < b.Kind
+		}
+		if ka, kb := key(a), key(b); ka != kb {
+			return ka < kb
+		}
+		return a.ID < b.ID
+	})
+	return cs
 }
 
 // Deliver runs the callee's handler on the request (in its own goroutine: InstallSnapshot may block).
